@@ -13,6 +13,22 @@ PW = "Different type hint and docstring types for '"
 RW = "Different type hint and docstring types for the result of '"
 
 
+TUPLE_MULTIPLICITY_SOURCE = '''
+
+def tuple_multiplicity_c14(pair: tuple[int, int, str], other: tuple[str, int]) -> int:
+    """Doc of tuple_multiplicity_c14.
+
+    Parameters
+    ----------
+    pair : tuple[int, str, str]
+        About pair.
+    other : tuple[int, str]
+        About other.
+    """
+    return 1
+'''
+
+
 def tsx(d):
     return [] if d is None else [vlib.ty_sx(AbstractType.from_dict(d))]
 
@@ -92,6 +108,9 @@ def run(ctx):
             style = p.style
         else:
             p = gen_pkg.gen_package(rng, i, style=style, doc_types=True, nmods=2, reexports=False)
+            if i == 2:
+                # hint and docstring type are tuples with the same members in other multiplicities: a real conflict
+                p.modules[0].extra_source = TUPLE_MULTIPLICITY_SOURCE
         files = gen_pkg.package_files(p)
         root = base / f"t{i}"
         implrun.write_tree(root, files)
